@@ -529,6 +529,9 @@ func Discharge(fr *FuncResult, opts DischargeOpts) []OblResult {
 				fmt.Fprintf(os.Stderr, "  [slow instance %d of %s: unsat by %s in %.1fs]\n", j.first, fr.Obligations[j.oi].Name(), r.Solver, r.Dur.Seconds())
 				os.WriteFile(fmt.Sprintf("/tmp/vcheck_slow_%d_%s.smt2", j.first, safeFile(fr.Obligations[j.oi].Name())), []byte(r.Raw), 0o644)
 			}
+			if d := os.Getenv("VCHECK_DUMP"); d != "" && strings.Contains(fr.Obligations[j.oi].Name(), d) {
+				os.WriteFile(fmt.Sprintf("/tmp/vcheck_dump_%d_%s.smt2", j.first, safeFile(fr.Obligations[j.oi].Name())), []byte(fmt.Sprintf("; verdict %s\n", r.Verdict)+r.Raw), 0o644)
+			}
 			if os.Getenv("VCHECK_VERBOSE") != "" && r.Verdict != VUnsat {
 				fmt.Fprintf(os.Stderr, "  [instance %d of %s: %s by %s in %.1fs]\n", j.first, fr.Obligations[j.oi].Name(), r.Verdict, r.Solver, r.Dur.Seconds())
 				os.WriteFile(fmt.Sprintf("/tmp/vcheck_inst_%d.smt2", j.first), []byte(r.Raw), 0o644)
@@ -566,9 +569,13 @@ type solveOut struct {
 func (x *Exec) solveJob(pcs [][]*Term, goals []*Term, opts DischargeOpts) solveOut {
 	t0 := time.Now()
 	// stage 0: quantifier-free attempt (quantified assumptions instantiated where possible, the rest dropped)
-	if qf := x.buildQueryOpt(pcs, goals, true, nil, true); !strings.Contains(qf, "(forall ") && !strings.Contains(qf, "(exists ") {
+	if qf := x.buildQueryOpt(pcs, goals, true, nil, true); os.Getenv("VCHECK_NOQF") == "" && !strings.Contains(qf, "(forall ") && !strings.Contains(qf, "(exists ") {
 		if r0 := RunSolver(context.Background(), Solvers[0], qf, opts.QuickTimeout); r0.Verdict == VUnsat {
-			return solveOut{VUnsat, r0.Solver + " (quantifier-free)", time.Since(t0), "", ""}
+			raw := ""
+			if os.Getenv("VCHECK_DUMP") != "" {
+				raw = qf
+			}
+			return solveOut{VUnsat, r0.Solver + " (quantifier-free)", time.Since(t0), "", raw}
 		}
 	}
 	script := x.buildQuery(pcs, goals, true, nil)
@@ -609,6 +616,17 @@ func (x *Exec) solveJob(pcs [][]*Term, goals []*Term, opts DischargeOpts) solveO
 // CheckSat reports whether a path condition is satisfiable (vacuity guard).
 func (x *Exec) CheckSat(pc *pcNode, timeoutSec int) Verdict {
 	script := x.buildQuery([][]*Term{pcTerms(pc)}, []*Term{False}, false, nil)
+	r := RunSolver(context.Background(), Solvers[0], script, timeoutSec)
+	if r.Verdict == VUnknown {
+		r = Race(script, timeoutSec, Solvers)
+	}
+	return r.Verdict
+}
+
+// CheckSatWith reports whether a path condition together with an extra condition is satisfiable.
+func (x *Exec) CheckSatWith(pc *pcNode, cond *Term, timeoutSec int) Verdict {
+	pcs := append(pcTerms(pc), cond)
+	script := x.buildQuery([][]*Term{pcs}, []*Term{False}, false, nil)
 	r := RunSolver(context.Background(), Solvers[0], script, timeoutSec)
 	if r.Verdict == VUnknown {
 		r = Race(script, timeoutSec, Solvers)
